@@ -37,13 +37,21 @@ def c06(chk, opts):
     # token half: the text of every well-formed token parses back to an equal token
     tokens = p_notation._tokens(chk, "MCNotation(token text reads back)")
     t1 = chk.path("tok.ndjson")
-    hx(["c05", "--seed", chk.seed, "--tokens", tokens, "--all-lits", 1 if thorough else 0, "--lists", 0, "--out", t1], timeout=3000)
+    hx(["c05", "--seed", chk.seed, "--tokens", tokens, "--all-lits", 1 if thorough else 0, "--lists", 0, "--sandwiches", 0, "--ctok", 1, "--ctok-weights", 6 if thorough else 2, "--out", t1], timeout=3000)
     r, ev1, bad1 = validate_independent(chk, "TraceNotation", t1, "TraceNotation(C06 tokens)", cfg="TraceNotationC06.cfg", heap="6g")
     for i in bad1:
         ev = json.loads(ev1[i - 1])
         if ev["op"] == "tok":
             chk.violation("token text does not parse back to an equal token: %s%s (rt=%s)" % ("".join(ev["body"]), "".join(ev["lit"]), ev["rt"]),
                           {"op": "tok", "text": "".join(ev["body"]) + "".join(ev["lit"])}, {"gen": ["c05"], "event": ev})
+        elif ev["op"] == "ctok":
+            d = {k: ev[k] for k in ("kind", "t", "h", "k", "e", "c", "w")}
+            chk.violation("text of a constructed token does not parse back to an equal token: %s printed as %r (fmt=%s, parse=%s, equal=%s, %d combos before, %d after)" %
+                          (json.dumps(d), "".join(ev["body"]) + "".join(ev["lit"]), ev["fmt"], ev["res"], ev["eq"], len(ev["orig"]), len(ev["back"])),
+                          dict(d, op="ctok"), {"gen": ["c05", "--ctok", "1"], "event": ev})
+    nct = sum(1 for e in ev1 if e.startswith('{"op":"ctok"'))
+    if nct < 2 * 2314:
+        raise ToolError("recorder produced %d constructed-token events, expected at least %d" % (nct, 2 * 2314))
     # range half
     args = ["--family", "rows,partial,random,big,negzero", "--rows-exhaustive", 8 if thorough else 7, "--rows-samples", 400 if thorough else 120,
             "--partial-pairs", 14 if thorough else 6, "--partial-random", 200 if thorough else 60, "--random", 3000 if thorough else 900, "--orders", 2]
@@ -60,7 +68,8 @@ def c06(chk, opts):
     return chk.finish(rule="ranges built from: every absent/a/b pattern of every suited and offsuit row of length <= 7 (8 thorough), structured and random patterns of the longer "
                            "rows and of the pocket row, all 729/81 partial patterns and the <=2-deviation family inside one rank pair (neighbours complete or absent), random "
                            "structured ranges; weights from {0, subnormal, 2^-k, 0.1, 0.3, 1-ulp, 1, random bit patterns in [0,1]} and -0.0; TLC compares the re-parsed map "
-                           "with the original bit for bit; plus every well-formed token's text parsed back",
+                           "with the original bit for bit; plus every well-formed token's text parsed back (tokens obtained by parsing the 3,796 bodies, and the 2,314 tokens built with "
+                           "HandRangeToken::new x fixed and random weight bits)",
                       extra={"ranges": len(events), "tokens": len(ev1)})
 
 
